@@ -67,7 +67,7 @@ extern "C" void simos_die (int code, const char *why)
 }
 
 void SimOS::reset ()
-{	ns.clear () ; fds.clear () ; next_fd = 1000 ;
+{	ns.clear () ; fds.clear () ; next_fd = 1000 ; fd_zero = false ;
 	clock_off = 0 ; clock_reads = 0 ;
 	in_lib = false ; cur_task = cur_op = 0 ; op_io = 0 ; op_budget = 0 ; cur_api = "" ;
 	faults.clear () ; fd_chunks.clear () ; fd_chunk_k = 0 ; eintr_every = 0 ; rw_calls = 0 ; enospc_quota = -1 ;
@@ -90,7 +90,9 @@ SimFileP SimOS::file (const std::string &name, bool create)
 int SimOS::open_fd (SimFileP f, int flags, bool by_lib)
 {	// lowest free number, as a kernel does: a stale close of an old number can then hit an unrelated handle
 	int fd = 1000 ;
-	for (;;) { auto it = fds.find (fd) ; if (it == fds.end () || !it->second.is_open) break ; fd ++ ; }
+	// fd_zero: the process behaves as if its standard input were closed, so the lowest free descriptor number is 0
+	if (fd_zero) { auto it = fds.find (0) ; if (it == fds.end () || !it->second.is_open) fd = 0 ; }
+	if (fd != 0) for (;;) { auto it = fds.find (fd) ; if (it == fds.end () || !it->second.is_open) break ; fd ++ ; }
 	if (fd >= next_fd) next_fd = fd + 1 ;
 	SimFd &d = fds [fd] ;
 	d = SimFd () ;
@@ -287,7 +289,7 @@ int __real_putchar (int c) ;
 static inline bool sim_active () { return g_os != nullptr ; }
 static inline bool in_lib () { return g_os && g_os->in_lib ; }
 static inline bool is_sim_path (const char *p) { return p && !strncmp (p, "/sim/", 5) ; }
-static inline bool is_sim_fd (int fd) { return fd >= 1000 ; }
+static inline bool is_sim_fd (int fd) { return fd >= 1000 || (fd == 0 && g_os && g_os->fd_zero) ; }
 
 static SimFd *get_fd (int fd)
 {	auto it = g_os->fds.find (fd) ;
